@@ -12,7 +12,8 @@ INV = "INVARIANTS IndexAgrees Disjoint FieldTypes ReadBack NoPhantom\nPROPERTIES
 def run(ck):
     q = ck.tier == "quick"
     rich, sample = ("FALSE", 0) if q else ("TRUE", 40)
-    cfg = ("CONSTANTS Keys = {\"f0\",\"t0\",\"n1\"}\nInitField = \"f0\"\nInitTag = \"t0\"\n"
+    # the third key is `message`, which scripts can also spell `_`: the replay spells it both ways
+    cfg = ("CONSTANTS Keys = {\"f0\",\"t0\",\"message\"}\nInitField = \"f0\"\nInitTag = \"t0\"\n"
            "WithBoolCastOfNumbers = FALSE\nRich = %s\nSampleOneIn = %d\nSPECIFICATION Spec\nVIEW view\n%s\n"
            "ACTION_CONSTRAINT EmitT\nCHECK_DEADLOCK FALSE\n") % (rich, sample, INV)
     res, rows = tlc_emit(ck, "Point", cfg, "Point(3 keys, rich=%s) complete state space" % rich, timeout=2400, xmx="24g",
